@@ -9,7 +9,7 @@
 (*   I  there is an if-statement                                           *)
 (*   M  some variable is assigned more than once in the loop body          *)
 (*   R  some atom is not of the form  variable cop number                  *)
-(*   N  some atom is not of the form  variable == number, or a negation    *)
+(*   N  some atom is not of the form  variable == number (under and/or/not) *)
 (*   C  some assignment carries a condition                                *)
 (*   P  a Normal/Uniform/Laplace/Exponential draw has variable parameters  *)
 (* The recurrence builder needs f \subseteq {C} (single assignment per     *)
@@ -59,7 +59,8 @@ Post(p, f, g) ==
                /\ "I" \notin g
                /\ Same({"G", "P"}, f, g)
                /\ NoNew({"R"}, f, g)                             \* atoms keep their operands
-               \* M, N, C may appear: branches become conditioned assignments, else-branches negations
+               \* M, C may appear: branches become conditioned assignments; N may appear when a negated
+               \* comparison is simplified into the complementary comparison
          [] p = "MultiAssignTransformer" ->
                /\ "M" \notin g
                /\ Same({"G", "I", "R", "N", "C", "P"}, f, g)
